@@ -11,6 +11,11 @@ import Fca.Drv.C08
 import Fca.Drv.C13
 import Fca.Drv.C07
 import Fca.Drv.C14
+import Fca.Drv.C18
+import Fca.Drv.C15
+import Fca.Drv.C03
+import Fca.Drv.C04
+import Fca.Drv.C02
 open Lean Fca.Drv
 
 def allHandlers : List (String × Handler) :=
@@ -21,7 +26,13 @@ def allHandlers : List (String × Handler) :=
   Fca.Drv.C08.handlers ++
   Fca.Drv.C13.handlers ++
   Fca.Drv.C07.handlers ++
-  Fca.Drv.C14.handlers
+  Fca.Drv.C14.handlers ++
+  Fca.Drv.C18.handlers ++
+  Fca.Drv.C18.handlersMV ++
+  Fca.Drv.C15.handlers ++
+  Fca.Drv.C03.handlers ++
+  Fca.Drv.C04.handlers ++
+  Fca.Drv.C02.handlers
 
 def dispatch (line : String) : String :=
   match Json.parse line with
